@@ -566,7 +566,7 @@ func genCursor(r *rand.Rand) (string, bool, string) {
 	case 6:
 		switch r.Intn(3) {
 		case 0:
-			return b64(`{"column":"id","pageSize":15,"filters":{}}`), true, "no-order"
+			return b64(`{"column":"id","pageSize":15,"filters":{}}`), false, "no-order"
 		case 1:
 			return b64(`{"column":"id","order":1,"pageSize":15,"filters":{},"paginationID":10}`), false, "no-bottom"
 		}
